@@ -359,6 +359,105 @@ def path_more(c, job):
                 info=dict(holds_sub=holds_sub, out=out))
         if out == "ok":
             c.prove("C08.robot attribute-is-the-robot-object", r.c1.motor is obj)
+    elif what == "automode":
+        # autonomous mode objects are injected like components (the selector itself is C14's subject: a stand-in
+        # that only holds the mode objects is put in its place)
+        import magicbot.magicrobot as mm
+
+        where = ["plain", "absent", "mistyped", "component"][c.choose("where", 4)]
+        dep = Dep()
+
+        class Arm:
+            def execute(self):
+                pass
+
+        class Mode:
+            MODE_NAME = "X"
+            if where == "component":
+                arm: Arm
+            else:
+                dep: Dep
+
+            def on_enable(self):
+                pass
+
+            def on_iteration(self, tm):
+                pass
+
+            def on_disable(self):
+                pass
+
+        mode, other = Mode(), Mode()
+
+        class Sel:
+            def __init__(self, *a, **k):
+                self.modes = {"X": mode, "Y": other}
+
+            def endCompetition(self):
+                pass
+
+        def createObjects(self):
+            if where == "plain":
+                self.dep = dep
+            elif where == "mistyped":
+                self.dep = object()
+
+        real_sel = mm.AutonomousModeSelector
+        mm.AutonomousModeSelector = Sel
+        try:
+            r = type("Robot", (MagicRobot,), {"__annotations__": {"arm": Arm}, "createObjects": createObjects})()
+            try:
+                r.robotInit()
+                out = "ok"
+            except (magicbot.inject.MagicInjectError, magicbot.magicrobot.MagicInjectError):
+                out = "inject-error"
+            except Exception as e:
+                out = "other:" + repr(e)[:80]
+        finally:
+            mm.AutonomousModeSelector = real_sel
+        c.reach("automode")
+        if where in ("absent", "mistyped"):
+            c.prove("C08.robot missing-or-mistyped-dependency-fails-at-startup", out == "inject-error", info=dict(where=where, out=out, owner="autonomous mode"))
+        elif where == "plain":
+            c.prove("C08.robot attribute-is-the-robot-object", out == "ok" and getattr(mode, "dep", None) is dep and getattr(other, "dep", None) is dep,
+                    info=dict(where=where, out=out, owner="autonomous mode"))
+        else:
+            c.prove("C08.robot attribute-is-the-robot-object", out == "ok" and getattr(mode, "arm", None) is r.arm, info=dict(where=where, out=out, owner="autonomous mode"))
+    elif what == "inherited-only":
+        # the concrete component class declares nothing itself: every annotation comes from its base class
+        where = ["plain", "prefixed", "absent", "mistyped"][c.choose("where", 4)]
+        dep = Dep()
+
+        class BaseComp:
+            motor: Dep
+
+            def execute(self):
+                pass
+
+        class Comp(BaseComp):
+            pass
+
+        def createObjects(self):
+            if where == "plain":
+                self.motor = dep
+            elif where == "prefixed":
+                self.c1_motor = dep
+            elif where == "mistyped":
+                self.motor = object()
+
+        r = type("Robot", (MagicRobot,), {"__annotations__": {"c1": Comp}, "createObjects": createObjects})()
+        try:
+            r.robotInit()
+            out = "ok"
+        except (magicbot.inject.MagicInjectError, magicbot.magicrobot.MagicInjectError):
+            out = "inject-error"
+        except Exception as e:
+            out = "other:" + repr(e)[:80]
+        c.reach("inherited-only")
+        if where in ("absent", "mistyped"):
+            c.prove("C08.robot missing-or-mistyped-dependency-fails-at-startup", out == "inject-error", info=dict(where=where, out=out, inherited_only=True))
+        else:
+            c.prove("C08.robot attribute-is-the-robot-object", out == "ok" and getattr(r.c1, "motor", None) is dep, info=dict(where=where, out=out, inherited_only=True))
     elif what == "inherited-ctor":
         # the annotated constructor is inherited from a base component class; parameters with and without defaults
         where = ["plain", "prefixed", "absent"][c.choose("where", 3)]
@@ -553,7 +652,7 @@ class C08(Spec):
     real_capable = False
     clauses = ["C08.unit private", "C08.unit absent", "C08.unit mistyped", "C08.unit delivers", "C08.unit ctor", "C08.robot missing",
                "C08.robot attribute", "C08.robot components", "C08.robot preset", "C08.robot injected-before", "C08.robot ctor", "C08.robot inherited", "C08.robot same-class"]
-    stubs = ["wpilib/hal/ntcore stubs for robotInit() (SendableChooser, SmartDashboard, NetworkTables)", "no autonomous package on sys.path (the selector tolerates that)"]
+    stubs = ["wpilib/hal/ntcore stubs for robotInit() (SendableChooser, SmartDashboard, NetworkTables)", "no autonomous package on sys.path (the selector tolerates that); for mode-object injection the selector is replaced by a stand-in holding two mode objects"]
     assumptions = ["presence flags are symbolic booleans decided through the solver; value kinds and robot definitions are enumerated programs"]
     outside = ["name collisions between '<component>_<attr>' of one component and a plain attribute requested by another (CrossHair second opinion of DESIGN §7(c) not built)",
                "typing constructs other than classes and one generic alias (list[int])"]
@@ -562,7 +661,7 @@ class C08(Spec):
         j = [dict(kind="unit", ann=a, private=p) for a in ("Dep", "int", "str", "list[int]") for p in (False, True)]
         j += [dict(kind="unit", ann=a, private=False) for a in ("Optional[Dep]", "Union[int,float]", "ClassVar[int]")]
         j += [dict(kind="ctor"), dict(kind="robot"), dict(kind="twins"), dict(kind="more", what="narrowed"), dict(kind="more", what="ctor-default"),
-              dict(kind="more", what="inherited-ctor"), dict(kind="more", what="numeric")]
+              dict(kind="more", what="inherited-ctor"), dict(kind="more", what="numeric"), dict(kind="more", what="inherited-only"), dict(kind="more", what="automode")]
         return j
 
     def bounds(self, tier):
@@ -571,7 +670,7 @@ class C08(Spec):
 
     def reach_required(self, tier):
         return ["untouched", "prefixed-lookup", "absent", "mistyped", "delivered", "falsy-delivered", "ctor-private", "startup-fails", "startup-ok",
-                "inherited-annotations", "ctor-injection", "twins", "inherited-robot", "preset-non-class-annotation", "narrowed-annotation", "ctor-default", "inherited-ctor", "numeric-annotation"]
+                "inherited-annotations", "ctor-injection", "twins", "inherited-robot", "preset-non-class-annotation", "narrowed-annotation", "ctor-default", "inherited-ctor", "numeric-annotation", "inherited-only", "automode"]
 
     def path_fn(self, c, job):
         return dict(unit=path_unit, ctor=path_ctor, robot=path_robot, twins=path_twins, more=path_more)[job["kind"]](c, job)
